@@ -246,6 +246,10 @@ func (s ExtendedSpatialID) Higher(hDiff, vDiff int64) *ExtendedSpatialID {
 	var x = s.x / hDiv
 	var y = s.y / hDiv
 	var z = s.z / vDiv
+	// 地表面より下(負の高さID)でも親ボクセルとなるよう床関数にする
+	if s.z%vDiv != 0 && s.z < 0 {
+		z--
+	}
 
 	return &ExtendedSpatialID{
 		hZoom: hZoom,
